@@ -41,6 +41,7 @@ type c15Mod struct {
 	imports  map[string][]string // from module -> items (functions or globals)
 	impOrder []string
 	events    []string // `event fn` definitions (never importable)
+	typeLast  []string // modules from which main imports the type again, alone, in a statement after all others
 	typeFirst []string // modules from which main imports only the type first, in a separate import statement placed before all others
 	factories []string // globals for which a pub function mk_<global>() returns a closure that marks and returns it
 	hasApply  bool     // pub fn apply_<mod>(cb: fn() -> str) -> str { cb() }
@@ -321,6 +322,17 @@ func c15Gen(seed int, illegal int) *c15Graph {
 	if r.Intn(3) == 0 {
 		main.typeFirst = append(main.typeFirst, g.mods[1+r.Intn(nlib)].name)
 	}
+	// a type-only import statement that comes after the value imports of the same module
+	if r.Intn(3) == 0 && len(main.impOrder) > 0 {
+		tm := main.impOrder[r.Intn(len(main.impOrder))]
+		dup := false
+		for _, x := range main.typeFirst {
+			dup = dup || x == tm
+		}
+		if !dup {
+			main.typeLast = append(main.typeLast, tm)
+		}
+	}
 	// closures crossing a module boundary: a closure made in a library and called by main must use
 	// the library's globals; a closure made in main and called by a library must use main's
 	for i := 1; i < len(g.mods); i++ {
@@ -428,6 +440,15 @@ func c15Gen(seed int, illegal int) *c15Graph {
 		g.mods = append(g.mods, mq)
 		main.addImport("mq", "chkmq")
 		g.mainBody = append(g.mainBody, "raw:chkmq:mq.chk")
+	}
+	// a module that defines a private function named like a builtin of the host (it never calls or exports
+	// it), and another module whose function calls that builtin: the builtin is what runs
+	if len(g.mods) >= 3 && r.Intn(3) == 0 {
+		owner, user := g.mods[1], g.mods[2]
+		owner.extra += fmt.Sprintf("fn debug(a: str) { println(\"%s has its own debug\", a); }\n", owner.name)
+		user.extra += fmt.Sprintf("pub fn dbg%s() { debug(\"from %s\"); }\n", user.name, user.name)
+		main.addImport(user.name, "dbg"+user.name)
+		g.mainBody = append(g.mainBody, "raw:dbg"+user.name+":DEBUG: from "+user.name)
 	}
 	// a library function whose only use anywhere is as the target of a spawn
 	if r.Intn(4) == 0 {
@@ -620,6 +641,15 @@ func (g *c15Graph) leafFirst(r *simrt.Rng, members ...*c15Mod) {
 		m.imports["ml"] = []string{"leaff"}
 		m.impOrder = append([]string{"ml"}, m.impOrder...)
 	}
+	// ... and some import a module nobody has analysed yet AFTER the import that closes the cycle
+	for i, m := range members {
+		if r.Intn(2) == 0 {
+			continue
+		}
+		name := fmt.Sprintf("mt%d", i)
+		g.mods = append(g.mods, &c15Mod{name: name, pubGlob: map[string]bool{}, fns: []c15Fn{{name: "tail" + name, pub: true}}})
+		m.addImport(name, "tail"+name)
+	}
 }
 
 func (g *c15Graph) sources() Program {
@@ -635,6 +665,11 @@ func (g *c15Graph) sources() Program {
 		}
 		for _, from := range m.impOrder {
 			fmt.Fprintf(&b, "import { %s } from %s;\n", strings.Join(m.imports[from], ", "), from)
+		}
+		for _, tm := range m.typeLast {
+			if g.mod(tm) != nil && tm != "main" {
+				fmt.Fprintf(&b, "import { type T%s } from %s;\n", tm, tm)
+			}
 		}
 		b.WriteString(m.extra)
 		for _, gn := range m.globals {
